@@ -345,6 +345,9 @@ def main(tier, replay):
         if replay:
             ctx.replay_mode = True
             w = json.load(open(replay))["witness"]
+            if w.get("kind") == "replay-race":
+                replay_race(ctx, srv, 20000)
+                return ctx.finish(0)
             one_fault(ctx, srv, w["step"], w["request"], w.get("kind", "replay"), tuple(w.get("path", [])), id_mode=w.get("id_mode", "own"), replay=True)
             return ctx.finish(0)
         # canonical flow once: collect the canonical requests (constants of the protocol)
@@ -483,7 +486,7 @@ def main(tier, replay):
         for k, kind, req in neg:
             negative(ctx, srv, k, req, kind)
         concurrent(ctx, srv, 8 if tier == "quick" else 200)
-        replay_race(ctx, srv, 30 if tier == "quick" else 1000)
+        replay_race(ctx, srv, 2500 if tier == "quick" else 40000)
         if srv.p.poll() is not None:
             ctx.violation("c19:server-died", {"status": srv.p.returncode})
         return ctx.finish(500 if tier == "quick" else 4000)
@@ -597,48 +600,81 @@ def negative(ctx, srv, k, req, kind):
 
 
 def replay_race(ctx, srv, rounds):
-    """One step sent under one client id from 8 connections at the same instant: only one of the
-    eight is in sequence, the other seven are replays of a step that is already taken."""
+    """One step sent under one client id on 8 connections at the same instant: only one of the
+    eight is in sequence, the other seven are replays of a step that is already taken.  The eight
+    connections are open and served (each by its own worker, parked in read) before the step
+    is sent; one thread then writes the same pre-encoded bytes to all of them back to back, so
+    that the service's workers wake within a few microseconds of each other."""
+    n = 8
+    c0 = None
+    racers = []
+
+    def fresh():
+        c = Conn(srv.path)
+        c.send(GETINFO)
+        c.frame()
+        return c
+
     for r in range(rounds):
         k = 1 + r % 3  # Test01..Test03
         try:
-            c0 = Conn(srv.path)
+            if c0 is None:
+                c0 = Conn(srv.path)
+            while len(racers) < n:
+                racers.append(fresh())
             cid, prev, err = run_canonical(c0, k)
-            c0.close()
             if err:
                 ctx.inconc({"replay_race": err})
+                c0.close()
+                c0 = None
                 continue
             req = request(STEPS[k], cid, prev)
-            n = 8
-            barrier = threading.Barrier(n)
-            outs = [None] * n
-
-            def one(i):
+            raw = json.dumps(req).encode() + b"\0"
+            socks = [c.s for c in racers]
+            for s_ in socks:
+                s_.sendall(raw)
+            outs = []
+            for c in racers:
                 try:
-                    c = Conn(srv.path)
-                    barrier.wait(timeout=10)
-                    outs[i] = outcome(c, req)
-                    c.close()
-                except Exception as e:  # noqa
-                    outs[i] = ("exception", repr(e))
-
-            ths = [threading.Thread(target=one, args=(i,)) for i in range(n)]
-            for t in ths:
-                t.start()
-            for t in ths:
-                t.join()
+                    f = c.frame()
+                except socket.timeout:
+                    outs.append(("timeout", None))
+                    continue
+                if f is None:
+                    outs.append(("eof", None))
+                elif f.get("error"):
+                    outs.append(("error", f.get("error")))
+                else:
+                    outs.append(("success", f))
         except (OSError, ValueError) as e:
             ctx.inconc({"replay_race": repr(e)})
+            for c in racers + ([c0] if c0 else []):
+                c.close()
+            racers, c0 = [], None
             continue
-        ok = sum(1 for o in outs if o and o[0] == "success")
+        # a refused step may close its connection: those racers are replaced
+        keep = []
+        for c, o in zip(racers, outs):
+            if o[0] in ("eof", "timeout") or c.eof:
+                c.close()
+            else:
+                keep.append(c)
+        racers = keep
+        ok = sum(1 for o in outs if o[0] == "success")
         ctx.case(("replay-race", STEPS[k], r))
         ctx.count("replay_races")
-        ctx.count("error_replies_observed", sum(1 for o in outs if o and o[0] == "error"))
+        ctx.count("error_replies_observed", sum(1 for o in outs if o[0] == "error"))
         if ok > 1:
             ctx.violation("c19:deviation-passes:%s:replayed-step-in-a-race" % STEPS[k], {"engine": "c19", "step_name": STEPS[k], "kind": "replay-race", "request": req,
-                          "outcome": [o[0] if o else None for o in outs], "message": "%d of 8 simultaneous sends of one step under one client id got the step's success reply; at most one of them is in sequence" % ok})
-        elif any(o and o[0] in ("exception", "timeout") for o in outs):
-            ctx.inconc({"replay_race": [o for o in outs if o and o[0] in ("exception", "timeout")][:2]})
+                          "outcome": [o[0] for o in outs], "message": "%d of 8 simultaneous sends of one step under one client id got the step's success reply; at most one of them is in sequence" % ok})
+            break
+        elif ok == 0:
+            ctx.violation("c19:in-sequence-step-refused:%s:in-a-race" % STEPS[k], {"engine": "c19", "step_name": STEPS[k], "kind": "replay-race", "request": req,
+                          "outcome": outs[:3], "message": "none of 8 simultaneous sends of the step that is next in sequence was accepted"}) if all(o[0] == "error" for o in outs) else ctx.inconc({"replay_race": outs[:2]})
+        elif any(o[0] == "timeout" for o in outs):
+            ctx.inconc({"replay_race": [o for o in outs if o[0] == "timeout"][:2]})
+    for c in racers + ([c0] if c0 else []):
+        c.close()
 
 
 def concurrent(ctx, srv, rounds):
